@@ -185,3 +185,34 @@ Definition api (cargo_ver : str) : apires :=
   | inr [a] => ApiOk a
   | inr _ => ApiMesonErr
   end.
+
+(* ------------------------------------------------------------------ *)
+(* manifest.py:296-328 a Dependency object: `version` plus the two lazily cached values
+   `accepts_version` (= cargo_parse(self.version)) and `api` (= version.api(self.version));
+   update_version(v) assigns the field and drops both caches.  Abstractly the object IS
+   its current requirement text: reads do not change it, update replaces it. *)
+Inductive dep_op :=
+  | DAccepts (ver : str)          (* dep.accepts_version(ver) *)
+  | DApi                          (* dep.api *)
+  | DUpdate (req : str).          (* dep.update_version(req) *)
+Inductive dep_obs := ObsAccept (b : bool) | ObsApi (a : apires).
+
+Definition dep_read (req : str) (o : dep_op) : option dep_obs :=
+  match o with
+  | DAccepts v => Some (ObsAccept (req_matches req v))
+  | DApi => Some (ObsApi (api req))
+  | DUpdate _ => None
+  end.
+Definition dep_step (req : str) (o : dep_op) : str :=
+  match o with DUpdate r => r | _ => req end.
+(* the observations of a sequence of operations on one object *)
+Fixpoint dep_run (req : str) (ops : list dep_op) : list dep_obs :=
+  match ops with
+  | [] => []
+  | o :: r =>
+      match dep_read req o with
+      | Some x => x :: dep_run (dep_step req o) r
+      | None => dep_run (dep_step req o) r
+      end
+  end.
+Definition dep_current (req : str) (ops : list dep_op) : str := fold_left dep_step ops req.
